@@ -1,6 +1,6 @@
 (* Properties/C05.v — Spice arithmetic is exact, atomic and (in the ledger) canonical.
    Only property theorems, each closed by [exact] and followed by Print Assumptions. *)
-From Verif Require Import U64 RepoConstants Spice SpiceP.
+From Verif Require Import U64 RepoConstants Spice SpiceP Ledger ListFacts LedgerInv LedgerReach.
 
 (* Supplying behaves like + on the unbounded integer cur*10^18+sup: success iff representable. *)
 Theorem C05_supply_exact : forall m a, canon m -> canon a ->
@@ -43,3 +43,10 @@ Theorem C05_noncanonical_wraps_refuted :
     supply m a = (m', None) /\ valZ m' <> valZ m + valZ a.
 Proof. exact supply_noncanonical_refuted. Qed.
 Print Assumptions C05_noncanonical_wraps_refuted.
+
+(* Ledger part: no sequence of entry-point calls gets a non-canonical amount into the ledger
+   (live DAG or checkpoint), so the exactness theorems above apply to every amount a ledger holds. *)
+Theorem C05_ledger_amounts_canonical : forall me L, reach me L ->
+  forall v, In v (vertices L) -> canon (t_spice (v_trx v)).
+Proof. exact reach_canonical. Qed.
+Print Assumptions C05_ledger_amounts_canonical.
